@@ -153,11 +153,9 @@ def inPlaceWrite {α} (p : Path) (c : α) : List (Effect α) :=
 /-- where the option values of the recovered configuration come from -/
 inductive Src (α : Type) where
   | coredata (a : α)   -- `coredata.load` succeeded: the stored option state is used as is
-  | cmdline (a : α)    -- coredata corrupt: `read_cmd_line_file` is applied to the command-line options *before*
-                       -- the new coredata is created: -D options and the machine files of [properties] are re-read
-  | cmdlineOptions (a : α)
-                       -- coredata missing: only `_generate` reads cmd_line.txt, into a copy of the options that
-                       -- the interpreter sees; the -D options are re-applied, the machine files are not re-read
+  | cmdline (a : α)    -- coredata corrupt or missing: `read_cmd_line_file` is applied to the command-line options
+                       -- *before* the new coredata is created: -D options and the machine files of [properties]
+                       -- are re-read (Environment.__init__ for a corrupt file; MesonApp.generate for a missing one)
   | fresh              -- neither: a first-time configuration from the command line alone
   deriving DecidableEq, Repr
 
@@ -190,10 +188,11 @@ def recover {α} (fs : FS α) : Verdict α :=
     | .torn => .internalError
     | _ => .rejectedCleanly              -- isfile(cmd_line.txt) false: re-raised with the --wipe hint
   | _ =>
-    -- FileNotFoundError → create_new_coredata(cmd_options) at once; _generate merges cmd_line.txt into
-    -- `user_defined_options` only (environment.py:131-132, msetup.py:228-229)
+    -- no coredata.dat: a partial build directory.  `MesonApp.generate` applies `read_cmd_line_file` to the
+    -- command-line options before `Environment.__init__` (FileNotFoundError → create_new_coredata) builds the
+    -- configuration from them (msetup.py generate)
     match fs pCmdline with
-    | .ok w => .usable (.cmdlineOptions w)
+    | .ok w => .usable (.cmdline w)
     | .torn => .internalError
     | _ => .usable .fresh
 
@@ -210,15 +209,14 @@ inductive Cmd where
   deriving DecidableEq, Repr
 
 /-- the property's acceptance condition on a recovery verdict: recovery works and every option has its
-    pre-command value or the one the command was setting.  `mf`: some option values of the directory live only in
-    coredata.dat — they came from a machine file or from the environment of the first setup — so re-applying only
-    the -D options of cmd_line.txt loses them.  For a first `setup` there is
-    no pre-command state: the user re-issues the same command line (machine file included), so a fresh
-    configuration *is* the new one. -/
-def acceptable (c : Cmd) (mf : Bool) : Verdict Gen → Bool
+    pre-command value or the one the command was setting.  `co`: some option values of the directory live only in
+    coredata.dat — they came from the environment of the first setup (PKG_CONFIG_PATH) — so a configuration rebuilt
+    from cmd_line.txt (-D options and machine files) loses them.  For a first `setup` there is no pre-command
+    state: the user re-issues the same command line, so a fresh configuration *is* the new one; for `--wipe` a
+    configuration rebuilt from cmd_line.txt is what the command itself produces. -/
+def acceptable (c : Cmd) (co : Bool) : Verdict Gen → Bool
   | .usable (.coredata g) => g == .old || g == .new
-  | .usable (.cmdline g) => g == .old || g == .new
-  | .usable (.cmdlineOptions g) => (g == .old || g == .new) && (!mf || c == .setup)
+  | .usable (.cmdline g) => (g == .old || g == .new) && (!co || c == .setup || c == .wipe)
   | .usable .fresh => c == .setup
   | _ => false
 
